@@ -51,6 +51,14 @@ NOTES = {
  "C10-7": "round 3", "C10-8": "round 3; NOT reported: replay buffer guard `!= Unlimited` rewritten as `> 0` (size 0 becomes unlimited) - a boundary value of a configuration parameter, not decided", "C10-9": "round 3",
  "C01-7": "round 3", "C01-8": "round 3", "C01-9": "round 3; first missed by C01 (reported by C13); CONSISTENT-PROTECTION/types joined C01",
  "C02-7": "round 3", "C02-8": "round 3", "C02-9": "round 3",
+ "C04-7": "round 3; NOT reported: RangeWithStep rewritten with a pre-computed count floor(span/step) (last value dropped when the span is not a multiple of the step) - arithmetic on values", "C04-8": "round 3; first missed by C04 (reported by C18); STABLE-MEANS-STABLE joined C04 with plugin scope", "C04-9": "round 3; NOT reported: ElementAt(0) delegates to Head (different sentinel error on an empty source) - which error value, not decided",
+ "C05-7": "round 3; first missed by C05 (reported by C10); SUBJECT-DELIVERS and SUBJECT-BROADCAST-LOCKED joined C05", "C05-8": "round 3; first missed; INNER-FILLED-BEFORE-HANDOVER added", "C05-9": "round 3",
+ "C08-7": "round 3", "C08-8": "round 3; first missed; NO-TRYLOCK-SKIP added", "C08-9": "round 3",
+ "C12-7": "round 3; first missed; the Share exemption of STATE-LEVEL now covers per-application state only", "C12-8": "round 3; first missed; HEAD-TAIL-DISJOINT added", "C12-9": "round 3 (I/O plugins armed earlier in the round)",
+ "C13-7": "round 3", "C13-8": "round 3", "C13-9": "round 3; first missed by C13 (reported by C19); STATE-LEVEL joined C13 with the Prometheus plugin in scope",
+ "C14-7": "round 3", "C14-8": "round 3; first missed; STATE-LEVEL (with the narrowed Share exemption) joined C14", "C14-9": "round 3; first missed by C14 (reported by C05); SEQUENTIAL-INNER-GUARD joined C14",
+ "C17-7": "round 3; first missed by C17 (reported by C09); the context rules joined C17", "C17-8": "round 3", "C17-9": "round 3; first missed by C17 (reported by C03); TEARDOWN-ALL-RUN joined C17",
+ "C19-7": "round 3", "C19-8": "round 3", "C19-9": "round 3; first missed; BRACKET-PLACEMENT added",
  "C20-4": "round 2", "C20-5": "round 2", "C20-6": "round 2; NOT reported: core Interval re-armed on absolute deadlines, so ticks missed by a slow observer are emitted back to back (a burst of windows for the native limiter) - timing / quota, not decided",
  "C16-1": "first missed; WATCHDOG-REARM added", "C16-2": "first missed; STATE-LEVEL added to C16 (the counter of a periodic source is per-subscription state)",
  "C20-2": "first missed by C20 (reported by C12): a change to core GroupBy; C20 now re-checks the core premises of the native limiter", "C20-3": "first missed by C20 (reported by C10/C02): a change to the core unicast subject; C20 now re-checks the core premises of the native limiter",
